@@ -450,6 +450,28 @@ func (x *Exec) evalCall(n *SCall, env *Env) Val {
 			t = fmt.Sprintf("(ival %s)", v.T)
 		}
 		return Val{T: fmt.Sprintf("(>= %s %s)", t, e.heapGet(env.old, "brk")), Sort: "Bool"}
+	case "errAs": // errAs(e, "T"): errors.As(e, &T) would succeed
+		t := x.typeArg(n.Args[1])
+		okf, _ := x.errAsFuncs(t)
+		return Val{T: fmt.Sprintf("(%s %s)", okf, arg(0).T), Sort: "Bool"}
+	case "errAsVal": // the value errors.As would store (as an interface value)
+		t := x.typeArg(n.Args[1])
+		_, vf := x.errAsFuncs(t)
+		return Val{T: fmt.Sprintf("(%s %s)", vf, arg(0).T), Sort: "Iface"}
+	case "global": // global("pkg.Var"): a package-level variable of any loaded package
+		s, ok := n.Args[0].(*SStr)
+		if !ok {
+			x.fail("global() needs a string literal")
+		}
+		i := strings.LastIndex(s.V, ".")
+		for _, sp := range e.prog.SSA.AllPackages() {
+			if sp.Pkg.Name() == s.V[:i] || sp.Pkg.Path() == s.V[:i] {
+				if g, ok := sp.Members[s.V[i+1:]].(*ssa.Global); ok {
+					return x.globalVal(g)
+				}
+			}
+		}
+		x.fail("unknown global %s", s.V)
 	case "real":
 		return Val{T: fmt.Sprintf("(to_real %s)", arg(0).T), Sort: "Real"}
 	case "smt": // smt("raw term", "Sort")
